@@ -567,6 +567,25 @@ func (ev *Evaluator) resolveType(name string) (types.Type, string) {
 			}
 		}
 	}
+	// a contract of another package evaluated at a call site: its unqualified type names belong to that package
+	if !strings.Contains(name, ".") {
+		var found types.Type
+		n := 0
+		for _, p := range ev.fx.eng.prog.AllPackages() {
+			if p.Pkg == nil || !strings.HasPrefix(p.Pkg.Path(), "github.com/jamespfennell/gtfs") {
+				continue
+			}
+			if obj := p.Pkg.Scope().Lookup(name); obj != nil {
+				if tn, ok := obj.(*types.TypeName); ok {
+					found = tn.Type()
+					n++
+				}
+			}
+		}
+		if n == 1 {
+			return found, ""
+		}
+	}
 	unsupported("spec: unknown type %q", name)
 	return nil, ""
 }
@@ -755,6 +774,18 @@ func (ev *Evaluator) call(x *ECall) SVal {
 		case "loc":
 			t := ev.eval(x.Args[0])
 			return SVal{v: Val{t: "(t_loc " + t.v.t + ")"}, sort: "Ref"}
+		case "sameheap":
+			// sameheap("T"): no cell of type T has a different content than in the pre-state (two-state contexts)
+			tn, ok := x.Args[0].(*EStr)
+			if !ok || ev.old == nil {
+				unsupported("spec: sameheap(\"T\") needs a type name and a pre-state")
+			}
+			t, _ := ev.resolveType(tn.V)
+			if t == nil {
+				unsupported("spec: sameheap: unknown type %s", tn.V)
+			}
+			key, srt := fx.tm.heapKey(t)
+			return SVal{v: Val{t: eq(fx.heap(ev.st, key, srt), fx.heap(ev.old, key, srt))}, typ: boolT}
 		case "atoiOK":
 			a := ev.eval(x.Args[0])
 			fx.ufun("atoi_ok", []string{"String"}, "Bool")
